@@ -48,6 +48,7 @@ type c15Scenario struct {
 	CloseQueue   bool          `json:"close_queue_with_pool,omitempty"`
 	CloseDelay   int           `json:"close_delay_yields"`
 	CloseSleep   time.Duration `json:"close_sleep"`
+	CloseInside  bool          `json:"close_called_from_inside_a_callback,omitempty"` // handler/actor: the "quit message" idiom
 
 	h         *Hist
 	hung      bool
@@ -88,6 +89,7 @@ func genC15(t *simrt.Tape, tier string) Scenario {
 		}
 	case "handler", "actor":
 		sc.Cap = []int{0, 1, 3}[t.Choose(3)]
+		sc.CloseInside = t.Bool(1, 3)
 		nu := 1 + t.Choose(maxUsers)
 		for u := 0; u < nu; u++ {
 			n := 1 + t.Choose(maxOps)
@@ -193,10 +195,19 @@ func (sc *c15Scenario) runClosing(s *simrt.Sim, ths []*simrt.Thread, closeFn fun
 		if sc.CloseSleep > 0 {
 			s.Sleep(sc.CloseSleep)
 		}
+		if sc.CloseInside && (sc.Kind == "handler" || sc.Kind == "actor") {
+			// closeFn submits the quit message; the Close itself is recorded where it happens
+			h.Do("closer", "submit-quit-message", nil, func() (interface{}, error) { closeFn(); return nil, nil })
+			return
+		}
 		sc.closeOp = h.Do("closer", "Close", nil, func() (interface{}, error) { closeFn(); return nil, nil })
 	})
 	ths = append(ths, closer)
 	done := allDone(ths)
+	if sc.CloseInside && (sc.Kind == "handler" || sc.Kind == "actor") {
+		all := done
+		done = func() bool { return all() && sc.closeOp != nil && sc.closeOp.Returned }
+	}
 	if !s.WaitUntilTimeout(done, 20*time.Second) {
 		s.SetFair(true)
 		if !s.WaitUntilTimeout(done, 5*time.Minute) {
@@ -259,7 +270,16 @@ func (sc *c15Scenario) runHandler(s *simrt.Sim) {
 			}
 		}))
 	}
-	if !sc.runClosing(s, ths, func() { hd.Close() }) {
+	closeFn := func() { hd.Close() }
+	if sc.CloseInside {
+		closeFn = func() {
+			hd.Post(func() {
+				sc.closeOp = h.Do("handler-goroutine", "Close", nil, func() (interface{}, error) { hd.Close(); return nil, nil })
+			})
+		}
+		sc.probes["close-from-inside-a-callback"]++
+	}
+	if !sc.runClosing(s, ths, closeFn) {
 		return
 	}
 	post("main")
@@ -273,6 +293,10 @@ func (sc *c15Scenario) runActor(s *simrt.Sim) {
 	effect := func(self *fpgo.ActorDef[int], msg int) {
 		if msg >= 0 && msg < len(works) {
 			works[msg].ranAt = append(works[msg].ranAt, s.Stamp())
+		}
+		if msg == -77 {
+			// the quit message: the actor closes itself
+			sc.closeOp = h.Do("actor-goroutine", "Close", nil, func() (interface{}, error) { self.Close(); return nil, nil })
 		}
 		s.Yield()
 	}
@@ -298,7 +322,12 @@ func (sc *c15Scenario) runActor(s *simrt.Sim) {
 			}
 		}))
 	}
-	if !sc.runClosing(s, ths, func() { a.Close() }) {
+	closeFn := func() { a.Close() }
+	if sc.CloseInside {
+		closeFn = func() { a.Send(-77) }
+		sc.probes["close-from-inside-a-callback"]++
+	}
+	if !sc.runClosing(s, ths, closeFn) {
 		return
 	}
 	send("main")
